@@ -949,6 +949,7 @@ func (rule *RuleExpression) checkMatrix(m *Matrix) *ObjectType {
 		return NewEmptyObjectType()
 	}
 
+	unknown := false
 	for _, combi := range m.Include.Combinations {
 		if combi.Expression != nil {
 			ty := rule.checkOneExpression(combi.Expression, "matrix combination at element of include section", "jobs.<job_id>.strategy")
@@ -967,7 +968,9 @@ func (rule *RuleExpression) checkMatrix(m *Matrix) *ObjectType {
 				}
 				o = merged
 			} else {
-				o.Loose()
+				// An element of unknown type can define every key, also the ones other elements or rows
+				// define, with any value (like `include: ${{ ... }}` as a whole)
+				unknown = true
 			}
 			continue
 		}
@@ -982,6 +985,9 @@ func (rule *RuleExpression) checkMatrix(m *Matrix) *ObjectType {
 		}
 	}
 
+	if unknown {
+		return NewEmptyObjectType()
+	}
 	return o
 }
 
